@@ -74,6 +74,89 @@ def gen_scriptsig(rng, nops=None, big=False, last_kind=None):
     return b"".join(ops), ops, kinds
 
 
+VARINT_EDGES = [252, 253, 254, 255, 256, 65535, 65536]
+
+
+def push_of_raw_len(rng, rawlen):
+    """(kind, raw) of a minimal data push whose encoding is exactly rawlen bytes
+    (None when no minimal push has that length)"""
+    if 2 <= rawlen <= 76:
+        n = rawlen - 1
+        d = rng.randbytes(n)
+        if n == 1 and (d[0] <= 16 or d[0] == 0x81):
+            d = b"\x42"
+        return "direct", bytes([n]) + d
+    if 78 <= rawlen <= 257:
+        n = rawlen - 2
+        return "pd1", b"\x4c" + bytes([n]) + rng.randbytes(n)
+    if 259 <= rawlen <= 65538:
+        n = rawlen - 3
+        return "pd2", b"\x4d" + n.to_bytes(2, "little") + rng.randbytes(n)
+    return None
+
+
+def gen_boundary_scriptsig(rng, small=False):
+    """a script-sig whose total length, or whose length once the non-final operations
+    are replaced by one-byte placeholders, is exactly a value at which the length
+    prefix (varint) changes form"""
+    edges = VARINT_EDGES[:5] if small else VARINT_EDGES
+    for _ in range(100):
+        target = rng.choice(edges)
+        if rng.random() < 0.5:
+            # unsigned length = (#non-final ops) + len(final op)
+            k = rng.randint(0, 4)
+            fin = push_of_raw_len(rng, target - k)
+            if fin is None:
+                continue
+            ops, kinds = [], []
+            for _i in range(k):
+                kd, raw = gen_op(rng, rng.choice(["direct", "pd1", "op0", "pd1_nonmin"]))
+                ops.append(raw)
+                kinds.append(kd)
+            ops.append(fin[1])
+            kinds.append(fin[0])
+            return b"".join(ops), ops, kinds, "unsigned-len-%d" % target
+        # total (signed) length
+        k = rng.randint(1, 3)
+        ops, kinds = [], []
+        for _i in range(k):
+            kd, raw = gen_op(rng, rng.choice(["direct", "pd1", "op0"]))
+            ops.append(raw)
+            kinds.append(kd)
+        fk, fraw = gen_op(rng, rng.choice(["direct", "pd1"]))
+        rest = target - sum(map(len, ops)) - len(fraw)
+        fill = push_of_raw_len(rng, rest)
+        if fill is None:
+            continue
+        ops.insert(rng.randrange(len(ops) + 1), fill[1])
+        kinds.insert(0, fill[0])
+        ops.append(fraw)
+        kinds.append(fk)
+        kinds = [classify_op(o) for o in ops]
+        return b"".join(ops), ops, kinds, "signed-len-%d" % target
+    sc, ops, kinds = gen_scriptsig(rng)
+    return sc, ops, kinds, None
+
+
+def classify_op(raw):
+    o = raw[0]
+    if o == 0:
+        return "op0"
+    if 1 <= o <= 75:
+        return "direct"
+    if o == 0x4c:
+        return "pd1" if raw[1] > 75 else ("empty_pd1" if raw[1] == 0 else "pd1_nonmin")
+    if o == 0x4d:
+        return "pd2" if int.from_bytes(raw[1:3], "little") > 255 else "pd2_nonmin"
+    if o == 0x4e:
+        return "pd4"
+    if o == 0x4f:
+        return "neg1"
+    if 0x51 <= o <= 0x60:
+        return "opn"
+    return "nonpush"
+
+
 def ser_tx(version, ins, outs, locktime, wits=None):
     out = version.to_bytes(4, "little", signed=True)
     if wits is not None:
@@ -94,15 +177,32 @@ def ser_tx(version, ins, outs, locktime, wits=None):
     return out
 
 
-def gen_tx(rng, max_in=4, max_out=4, big=False, witness=False, min_in=1):
-    """returns dict(raw, ins, outs, version, locktime, kinds)"""
+def gen_tx(rng, max_in=4, max_out=4, big=False, witness=False, min_in=1, edges=True):
+    """returns dict(raw, ins, outs, version, locktime, kinds, edges); edges: a tenth of the
+    transactions carry a length or count sitting exactly on a varint boundary"""
     nin = rng.randint(min_in, max_in)
     nout = rng.randint(0, max_out)
+    edge = []
+    er = rng.random() if edges else 1.0
+    if er < 0.008 and edges == "scripts":
+        er = 0.05
+    if er < 0.004:
+        nin = rng.choice([252, 253, 254])
+        edge.append("inputs-%d" % nin)
+    elif er < 0.008:
+        nout = rng.choice([252, 253, 254])
+        edge.append("outputs-%d" % nout)
     ins = []
     kinds = []
     opsl = []
-    for _ in range(nin):
-        sc, ops, ks = gen_scriptsig(rng, big=big)
+    for i_ in range(nin):
+        if 0.008 <= er < 0.1 and i_ == (nin - 1) // 2:
+            sc, ops, ks, lab = gen_boundary_scriptsig(rng, small=not big)
+            if lab:
+                edge.append(lab)
+        else:
+            sc, ops, ks = gen_scriptsig(rng, big=big, nops=rng.randint(1, 2) if nin > 50
+                                        else None)
         ins.append((rng.randbytes(32), rng.choice([0, 1, 0xffffffff, rng.getrandbits(32)]),
                     sc, rng.choice([0xffffffff, 0xfffffffe, 0, rng.getrandbits(32)])))
         kinds.append(ks)
@@ -110,6 +210,9 @@ def gen_tx(rng, max_in=4, max_out=4, big=False, witness=False, min_in=1):
     outs = []
     for _ in range(nout):
         spk = rng.randbytes(rng.choice([0, 22, 23, 25, 34, rng.randint(0, 80)]))
+        if 0.1 <= er < 0.11 and not edge:
+            spk = rng.randbytes(rng.choice([252, 253, 254]))
+            edge.append("spk-%d" % len(spk))
         outs.append((rng.choice([0, 1, 546, 2100000000000000, rng.getrandbits(50)]), spk))
     version = rng.choice([1, 2, 1, 2, rng.choice([0, 3, -1, 0x7fffffff])])
     locktime = rng.choice([0, 1, 499999999, 500000000, 0xffffffff, rng.getrandbits(32)])
@@ -121,7 +224,8 @@ def gen_tx(rng, max_in=4, max_out=4, big=False, witness=False, min_in=1):
             wits[0] = [b"\x01"]
     raw = ser_tx(version, ins, outs, locktime, wits)
     return {"raw": raw, "ins": ins, "outs": outs, "version": version,
-            "locktime": locktime, "kinds": kinds, "ops": opsl, "witness": witness}
+            "locktime": locktime, "kinds": kinds, "ops": opsl, "witness": witness,
+            "edges": edge}
 
 
 def resign_variant(rng, tx):
